@@ -1,6 +1,6 @@
 (** * C14 - NFT draw picks min(available, payers) distinct payers; fees reconcile. *)
 From Coq Require Import Permutation.
-From LP Require Import Proofs.Tactics Proofs.LedgerBase Proofs.Gates Proofs.Frames Proofs.Nft Proofs.Examples Proofs.NftLedger.
+From LP Require Import Proofs.Tactics Proofs.LedgerBase Proofs.Gates Proofs.Frames Proofs.Confirm Proofs.Nft Proofs.Examples Proofs.NftLedger.
 Open Scope N_scope.
 
 (** paying the fee: only in the confirmation window, only after the SFT set-up, only with confirmed
@@ -67,6 +67,19 @@ Proof. exact claim_nft_payment_spec. Qed.
 
 (** ** the fee ledger ([FeeInv]: fee asset held = fee x payers not yet settled + proceeds not yet
     withdrawn; the fee asset is not the SFT collection) *)
+(** the confirmation window: a fee payment (whole transaction, the VM crediting the call value)
+    adds exactly one fee and one entrant; blacklisting returns one fee per entrant removed *)
+Theorem C14_fee_confirm : forall (H : list N -> list N) v e b sd w w' r,
+  pay_wf (pay e) -> caller e <> sc_addr -> FeeInv w ->
+  exec H v e b sd w CConfirmNft = Ok (w', r) ->
+  FeeInv w' /\ nft_payers (st w') = nft_payers (st w) ++ [caller e] /\ claimable_nft (st w') = claimable_nft (st w).
+Proof. exact FeeInv_confirm_nft. Qed.
+
+Theorem C14_fee_refund : forall l w w',
+  FeeInv w -> ~ In sc_addr l -> refund_nft_loop w l = Ok w' ->
+  FeeInv w' /\ claimable_nft (st w') = claimable_nft (st w).
+Proof. exact FeeInv_refund. Qed.
+
 Theorem C14_fee_draw : forall (H : list N -> list N) b w r w' r' b',
   FeeInv w -> nft_winners (st w) = [] -> claimable_nft (st w) = 0 ->
   select_nft_winners H b w r = Ok (w', r', true, b') ->
@@ -107,6 +120,8 @@ Print Assumptions C14_swap_remove.
 Print Assumptions C14_claim.
 Print Assumptions C14_blacklisted_payer.
 Print Assumptions C14_owner_proceeds.
+Print Assumptions C14_fee_confirm.
+Print Assumptions C14_fee_refund.
 Print Assumptions C14_fee_draw.
 Print Assumptions C14_fee_claim.
 Print Assumptions C14_fee_owner.
